@@ -6,7 +6,25 @@ NOTE = ("Trusted base: Coq 8.16.1 kernel (+vm_compute), no axioms (Print Assumpt
         "format (Layer F); the model is tied to /repo by running it (extracted) against the real library on generated histories and comparing every result and file hash; "
         "the extracted Layer S/F specification judges the library's behaviour and provides the failing input. See DESIGN.md sections 3-8.")
 LEVEL = {
- "C01": "Proved (all p, all u64 timestamps, all payload bytes, all lengths, no bound): reference decoder inverts reference encoder; model of push appends exactly the encoder's bytes; model of the chunked reader with carry-over equals the streaming decoder for every chunk size. Tie: differential runs incl. sections at every offset around two consecutive 16 KiB boundaries.",
+ "C01": "Proved for the model, all payload sizes, all u64 timestamps, all lengths: codec round trip; chunked reader with carry = one pass for every chunk size; create + any accepted appends + full read returns exactly the list (C01_roundtrip); across close/reopen for payload sizes >= 4 (C01_across_reopen). Payload sizes 0..3 across reopen: under the marker-word conditions of C04. Judged + correspondence on histories incl. sections at every offset around two consecutive 16 KiB boundaries.",
+ "C02": "Proved in full for the model: every pair of bounds (incl/excl/unbounded, in gaps, at the 65534 edge), every series: read_all returns exactly the selected lines or nothing (C02_range_read, C02_seek: binary search, area classification, delta scans, reader).",
+ "C03": "Proved in full for the model: accepted iff the accept rule holds; accepted appends extend the represented list, refused ones change no file and no state (C03_append_refines_spec).",
+ "C04": "Proved for the model: close/reopen is the identity on the abstract state and on every file, any list/length/header, unconditional for payload sizes >= 4 (C04_reopen_p4: header parser, tail checks, backwards search of the last full timestamp, index validation, last-line read); payload sizes 0..3 under two explicit conditions on 0xFFFF words whose failure is the known finding D6 (witness lemma C04_open_intact_refuted). Series with cache levels: C09.",
+ "C05": "Proved for the model, payload sizes >= 4: data file cut at ANY byte length, index absent or cut at ANY byte length independently, leftover .part: open succeeds and represents exactly the maximal prefix of completely written lines; repaired series takes appends and reads them back (C05_open_after_crash, C05_repair_then_append). Payload sizes 0..3: judged on enumerated cut lengths.",
+ "C06": "Proved for the model: index = function of the data; appends keep it; the chunked rebuild (with carry over any number of 16 KiB boundaries) finds exactly the sections of any well-formed series; validation on open accepts a prefix-of-history index only when it is the index of the data, otherwise rebuilds (C06_rebuild, C05_index_validation, C05_index_rebuild).",
+ "C07": "Proved: reference decoder inverts reference encoder for the documented layouts; the model's five write/read layouts are the documented ones; constants regenerated from the source agree with the documented values. Open of hand-encoded non-canonical files and of the two assets: judged + correspondence.",
+ "C08": "Proved in full for the model, one session: any number of cache levels, any bucket sizes >= 1, any list: after every accepted append every cache data file is its header + the reference encoding of the bucket means, its index the index of that (C08_session, C08_append, C08_files). After reopen: C09.",
+ "C09": "Proved for the model, payload sizes >= 4, the aligned case only: reopen with the same levels when the line count is a multiple of every bucket size leaves every file untouched and re-establishes the invariant (C09_reopen_aligned). Unaligned reopen and damaged caches deviate in the library: known finding D10 (reported as KNOWN-FINDING); all other states judged.",
+ "C10": "Proved in full for the model (no caches): every range, every n >= 1: the uniform bucket means of exactly the selected lines, at most 2n samples, unbounded sums (C10_resampling_read).",
+ "C11": "Proved for the model: whichever configured level the estimate loop settles on, read_n returns the uniform resampling of that level's lines in the range, at most 2n; the order assertion passes for ascending bucket sizes (after the D17 fix). Not proved: that the estimate loop itself cannot reach its unreachable!() arm.",
+ "C12": "Proved for the model under the representation invariant (hence after create, appends, reopen and crash recovery where C04/C05 are proved): len, range, payload_size, last_line.",
+ "C13": "Proved in full: first n = prefix of the full read for every range (model); paging by Excluded(last) visits every line exactly once for every page size (spec level).",
+ "C14": "Proved for the model: zero/range error exactly when nothing is selected; otherwise the exact formula count = lines + K * sections opened inside the selection. That this is within the specification's bound (sections at or inside the range) is judged, not proved.",
+ "C15": "Proved in full for the model: the 65534 rule as a characterisation of the encoder; an accepted append writes exactly the reference bytes; the data file is a function of header and lines.",
+ "C16": "Proved for the model, with any number of cache levels: an accepted append leaves every file of the series with its old content as a byte prefix and touches no other file; reads and accessors return the file system unchanged (the fs in `= (fs, ..)` of the read theorems).",
+ "C17": "Proved for the model: create over an existing series / too large header / stale index: error and no residue; open of a missing series creates nothing; header parser returns stored payload size and header for every payload size; other payload size or other header demanded: error, nothing touched. Known finding D13 (stale cache file residue).",
+ "C18": "Proved for the model: on arbitrary bytes the reader hands the processor exactly the lines certified by the specification's skipping decoder - all with consent, those before the first lone marker then the corruption error without. That the certified lines of a once-damaged file are a subsequence of the appended ones: checked per history by the judge.",
+ "C19": "Proved for the model under the invariant, all arguments: read_all, read_first_n, n_lines, read_n (no caches), last_line, push, len return a value or an error (no panic, no exhausted loop bound). With caches and builder calls: judged (incl. extreme arguments).",
 }
 DEFAULT = "Machine-checked theorems about the Coq model/spec for the parts listed in props/%s.v (see DESIGN.md section 9 for which statements are proved in full and which are _partial); the remaining obligations of the property are at present covered by the extracted specification judging the real library and by model/implementation correspondence on generated histories - that part is testing, not proof."
 props = [json.loads(l) for l in open('/verif/properties.jsonl')]
